@@ -365,15 +365,111 @@ class C14(Property):
             pass
         self.stats['sh_unsafe_pattern_shape'] = shape
         src = pat.pattern if pat is not None else 'args2sh([c]) == c'
+        # --- round 3: more facts the proofs rest on, re-read from the current code on every run
+        import inspect
+        # (a) the text spliced in for an embedded single quote: evaluate the encoder on a'b
+        default_splice = "'\"'\"'"
+        splice, pieces, how = default_splice, None, 'args2sh(["a\'b"])[2:-2]'
+        try:
+            t = strutils.args2sh(["a'b"])
+            if isinstance(t, str) and t.startswith("'a") and t.endswith("b'") and len(t) >= 6:
+                cand = t[2:-2]
+                pc = self.splice_pieces(cand)
+                if pc is not None and strutils.args2sh(["'"]) == "'" + cand + "'":
+                    splice, pieces = cand, pc
+        except Exception:
+            pass
+        if pieces is None:
+            # another quoting scheme altogether (or one this small parser does not read): the model keeps the
+            # classic splice; the correspondence (acceptance of the implementation's text) is unaffected
+            splice, pieces, how = default_splice, self.splice_pieces(default_splice), 'fallback: scheme not recognised, model keeps its own splice'
+        self.stats['sh_splice'] = {'text': splice, 'source': how}
+        # (b) the characters that force double quotes in args2cmd: evaluate the encoder on every code point
+        a2c = strutils.args2cmd
+        qruns, lo = [], None
+        try:
+            with time_limit(120):
+                for c in range(0x110000):
+                    q = (not 0xD800 <= c <= 0xDFFF) and a2c([chr(c)])[:1] == '"'
+                    if q and lo is None:
+                        lo = c
+                    if not q and lo is not None:
+                        qruns.append((lo, c - 1))
+                        lo = None
+            if lo is not None:
+                qruns.append((lo, 0x10FFFF))
+            self.stats['cmd_quote_class_source'] = 'args2cmd on one-character arguments'
+        except Exception as e:      # the encoder itself fails on some character: the oracle will say so; keep the classic class
+            qruns = [(9, 9), (32, 32)]
+            self.stats['cmd_quote_class_source'] = 'fallback (args2cmd raised %s on a one-character argument)' % exc_name(e)
+        # (c) default delimiters, from the signatures
+        def dflt(fn, name, fallback):
+            try:
+                v = inspect.signature(fn).parameters[name].default
+                return ord(v) if isinstance(v, str) and len(v) == 1 else fallback
+            except Exception:
+                return fallback
+        dd = {dflt(fn, 'delim', 44) for fn in (strutils.format_int_list, strutils.parse_int_list,
+                                                 strutils.complement_int_list, strutils.int_ranges_from_int_list)}
+        rr = {dflt(fn, 'range_delim', 45) for fn in (strutils.format_int_list, strutils.parse_int_list,
+                                                       strutils.complement_int_list, strutils.int_ranges_from_int_list)}
+        d0, r0 = (dd.pop() if len(dd) == 1 else 44), (rr.pop() if len(rr) == 1 else 45)
+        self._gen2 = {'splice': splice, 'pieces': pieces, 'cmdquote': qruns, 'delim': d0, 'rdelim': r0}
+        extra = ('/-- what `args2sh` writes for a single quote inside a quoted argument (code points): %s -/\n'
+                 'def shSqSplice : List Nat := [%s]\n\n'
+                 '/-- its decomposition into pieces (kind, code points; 0 = \'..\', 1 = backslash + c, 2 = "..", 3 = bare)\n'
+                 '    proposed by the translator and CHECKED in Lean (`spliceOk`) -/\n'
+                 'def shSqSplicePieces : List (Nat × List Nat) := [%s]\n\n'
+                 '/-- maximal runs of code points c for which `args2cmd([chr(c)])` comes back wrapped in double quotes -/\n'
+                 'def cmdQuoteRanges : List (Nat × Nat) := [%s]\n\n'
+                 '/-- defaults of `delim` / `range_delim` in the signatures of the integer-list functions -/\n'
+                 'def intDelim : Nat := %d\n\ndef intRangeDelim : Nat := %d\n\n'
+                 % (how, ', '.join(str(ord(ch)) for ch in splice),
+                    ', '.join('(%d, [%s])' % (k, ', '.join(str(ord(ch)) for ch in v)) for k, v in pieces),
+                    ', '.join('(%d, %d)' % r for r in qruns), d0, r0))
         body = ('/-\nGENERATED by harness/bv/props/c14.py (regen) from boltons/strutils.py - do not edit.\n'
                 'source pattern of `_find_sh_unsafe` (UTF-8 hex): %s flags=%s\n'
                 '`shSafeRanges` = the maximal runs of code points c (0..0x10FFFF) with `_find_sh_unsafe(chr(c)) is None`,\n'
                 'obtained by evaluating the compiled regex on every single code point.\n-/\n'
                 'namespace C14.Gen\n\n'
-                'def shSafeRanges : List (Nat × Nat) := [%s]\n\nend C14.Gen\n'
+                'def shSafeRanges : List (Nat × Nat) := [%s]\n\n%send C14.Gen\n'
                 % (src.encode('utf-8').hex(), getattr(pat, 'flags', '?'),
-                   ', '.join('(%d, %d)' % r for r in runs)))
+                   ', '.join('(%d, %d)' % r for r in runs), extra))
         return {'C14_ShTables.lean': body}
+
+    @staticmethod
+    def splice_pieces(splice):
+        """decompose `'` + pieces + `'` (pieces: '..' | backslash c | ".." | bare run) -> [(kind, text)] or None.
+        Only a PROPOSAL: Lean checks it (`spliceOk`: pieces valid, value = one single quote, rendering = splice)."""
+        if len(splice) < 2 or splice[0] != "'" or splice[-1] != "'":
+            return None
+        mid, out, i = splice[1:-1], [], 0
+        while i < len(mid):
+            c = mid[i]
+            if c == "'":
+                j = mid.find("'", i + 1)
+                if j < 0:
+                    return None
+                out.append((0, mid[i + 1:j]))
+                i = j + 1
+            elif c == '\\':
+                if i + 1 >= len(mid):
+                    return None
+                out.append((1, mid[i + 1]))
+                i += 2
+            elif c == '"':
+                j = mid.find('"', i + 1)
+                if j < 0 or any(x in mid[i + 1:j] for x in '\\$`'):
+                    return None
+                out.append((2, mid[i + 1:j]))
+                i = j + 1
+            else:
+                m = re.match(r'[A-Za-z0-9_@%+=:,./-]+', mid[i:])
+                if not m:
+                    return None
+                out.append((3, m.group(0)))
+                i += m.end()
+        return out or None
 
     # ------------------------------------------------------------------ generation
     def _prefetch(self, chunk):
@@ -1258,6 +1354,15 @@ class C14(Property):
             back = drv.query(['table'])[0]
             if back != ','.join('%d:%d' % r for r in runs):
                 raise InfraError('generated sh table in the driver (%s) differs from the live regex (%s)' % (back, runs))
+        g2 = getattr(self, '_gen2', None)
+        if g2 is not None:
+            back = drv.query(['tables2'])[0]
+            rend = {0: lambda v: "'" + v + "'", 1: lambda v: '\\' + v, 2: lambda v: '"' + v + '"', 3: lambda v: v}
+            want = 'splice=%s pieces=%s cmdquote=%s delim=%s rdelim=%s' % (
+                hx(g2['splice']), ','.join(hx(rend[k](v)) for k, v in g2['pieces']),
+                ','.join('%d:%d' % r for r in g2['cmdquote']), hx(chr(g2['delim'])), hx(chr(g2['rdelim'])))
+            if back != want:
+                raise InfraError('generated facts in the driver (%s) differ from the live code (%s)' % (back, want))
         self._text_diagnostic(drv)
         # --- shSplit vs real shells and shlex: wherever the Lean lexer accepts, they must produce the same words
         alpha = ['a', "'", '"', '\\', ' ', '\t', '\n', '$', '=', 'é', '-', '*', 'b']
